@@ -838,6 +838,7 @@ impl BackupManager {
         let manifest_layout = read_manifest_layout(&manifest_path)?;
         let mut entries = Vec::new();
         let mut max_wal_file_id: Option<u64> = None;
+        let mut snapshot_file: Option<String> = None;
 
         let all_wal_segments = list_wal_segments_in_dir(&self.data_dir)?;
         let modified_since_parent = |path: &Path| -> bool {
@@ -891,6 +892,34 @@ impl BackupManager {
                     a_id.cmp(&b_id).then_with(|| a.cmp(b))
                 });
                 manifest.wal_segments.dedup();
+                // The shipped MANIFEST must be recoverable from the chain alone: when it names a
+                // snapshot that the parent chain does not already carry (a snapshot was taken, and
+                // older segments compacted, since the parent backup), ship that snapshot too.
+                if let Some(name) = &manifest.latest_snapshot {
+                    // Newest snapshot carried by the parent chain (an incremental records one only
+                    // when it ships it).
+                    let mut chain_snapshot = parent_metadata.snapshot_file.clone();
+                    let mut ancestor = parent_metadata.parent_id;
+                    while chain_snapshot.is_none() {
+                        let Some(ancestor_id) = ancestor else { break };
+                        let ancestor_path =
+                            self.backup_dir.join(format!("backup_{}.json", ancestor_id));
+                        let Ok(raw) = fs::read_to_string(&ancestor_path) else { break };
+                        let Ok(meta) = serde_json::from_str::<BackupMetadata>(&raw) else { break };
+                        chain_snapshot = meta.snapshot_file;
+                        ancestor = meta.parent_id;
+                    }
+                    if chain_snapshot.as_deref() != Some(name.as_str()) {
+                        let snapshot_path = self.data_dir.join(name);
+                        anyhow::ensure!(
+                            snapshot_path.exists(),
+                            "MANIFEST references missing snapshot '{}'",
+                            name
+                        );
+                        entries.push(ArchiveEntry::from_path(name.clone(), snapshot_path));
+                        snapshot_file = Some(name.clone());
+                    }
+                }
                 let manifest_bytes =
                     serde_json::to_vec_pretty(&manifest).context("Failed to serialize MANIFEST")?;
                 entries.push(ArchiveEntry::from_bytes("MANIFEST", manifest_bytes));
@@ -957,7 +986,7 @@ impl BackupManager {
             parent_id: Some(parent_id),
             description,
             max_wal_file_id,
-            snapshot_file: None,
+            snapshot_file,
         };
 
         // Save metadata
